@@ -61,9 +61,12 @@ def g_text(rng):
         # mutate: drop / duplicate / replace one character
         i = rng.randrange(0, len(s)); k = rng.random()
         s = s[:i] + s[i + 1:] if k < 0.4 else (s[:i] + s[i] + s[i:] if k < 0.7 else s[:i] + rng.choice("c4^.,{}[]'/*\n (-$") + s[i + 1:])
-    # (no full-width variants here: every entry point runs sutoton::convert first, which makes the text half-width before `lex` sees it;
-    #  `lex` called directly on full-width '＃', '＿' or upper-case letters does not terminate — the arm steps back and get_word reads nothing —
-    #  which is outside every listed property because no entry point can reach it; C17/C18 cover full-width text through the pipeline)
+    if rng.random() < 0.12 and s:
+        # full-width forms of some characters: `lex` reads the command character in its half-width form (letters, `＃`, `｛` are replaced
+        # before the word / block is read); it can meet them unconverted in the text of a `{"…"}` string variable
+        idx = [i for i, ch in enumerate(s) if 0x21 <= ord(ch) <= 0x7E]
+        for i in rng.sample(idx, min(len(idx), rng.choice([1, 1, 2, 4, 40]))):
+            s = s[:i] + chr(ord(s[i]) - 0x21 + 0xFF01) + s[i + 1:]
     return s
 
 FIXED = ["", "c", "c4\n^8", "c4\n\n^", "c4\n d", "l8 [ 3 cde] g", "[ 3 c : d] e", "{[ 3 c]}4", "Sub{[ 3 c]}", "'ceg r' d", "/**/l4 c d e", "c >/**/ d e", "l4 c\n/**/ d /* second */ e",
